@@ -5,8 +5,11 @@ import (
 	"bytes"
 	"fmt"
 	"sort"
+	"sync"
 	"testing"
 
+	"github.com/cockroachdb/pebble"
+	rp "github.com/jamf/regatta/pebble"
 	"github.com/jamf/regatta/regattapb"
 	"github.com/jamf/regatta/storage/table/fsm"
 	"github.com/jamf/regatta/storage/table/key"
@@ -31,6 +34,16 @@ func enc(t key.Type, k []byte) ([]byte, error) {
 		return nil, fmt.Errorf("Encode reported %d bytes, wrote %d", n, buf.Len())
 	}
 	return buf.Bytes(), nil
+}
+
+var (
+	cmpOnce sync.Once
+	cmpVal  *pebble.Comparer
+)
+
+func storeComparer() *pebble.Comparer {
+	cmpOnce.Do(func() { cmpVal = rp.DefaultOptions().Comparer })
+	return cmpVal
 }
 
 func sign(x int) int {
@@ -136,6 +149,41 @@ func run(c Case, o *vt.Obs) *vt.Failure {
 		for j := range c.Keys {
 			if sign(bytes.Compare(encs[i], encs[j])) != sign(bytes.Compare(c.Keys[i], c.Keys[j])) {
 				return vt.Failf(prop+"/order", i, "cmp(%q,%q)=%d but cmp(enc)=%d", c.Keys[i], c.Keys[j], bytes.Compare(c.Keys[i], c.Keys[j]), bytes.Compare(encs[i], encs[j]))
+			}
+		}
+	}
+	// the store's own comparer (pebble/pebble.go): "order in storage space" is what THIS comparer says, and pebble relies on the documented
+	// laws between its functions (skiplists of indexed batches order by AbbreviatedKey first, sstable index blocks use Separator / Successor,
+	// bloom filters use Split)
+	cmp := storeComparer()
+	for i := range c.Keys {
+		a := encs[i]
+		if n := cmp.Split(a); n < 0 || n > len(a) {
+			return vt.Failf(prop+"/comparer-split", i, "Split(enc %q)=%d outside [0,%d]", c.Keys[i], n, len(a))
+		}
+		if suc := cmp.Successor(nil, a); cmp.Compare(suc, a) < 0 {
+			return vt.Failf(prop+"/comparer-successor", i, "Successor(enc %q) sorts before the key", c.Keys[i])
+		}
+		for j := range c.Keys {
+			b := encs[j]
+			want := sign(bytes.Compare(c.Keys[i], c.Keys[j]))
+			if got := sign(cmp.Compare(a, b)); got != want {
+				return vt.Failf(prop+"/comparer-order", i, "store comparer orders enc(%q) vs enc(%q) as %d, the user keys compare %d", c.Keys[i], c.Keys[j], got, want)
+			}
+			if cmp.Equal(a, b) != (want == 0) {
+				return vt.Failf(prop+"/comparer-equal", i, "store comparer Equal(enc %q, enc %q)=%v", c.Keys[i], c.Keys[j], cmp.Equal(a, b))
+			}
+			if want < 0 {
+				if cmp.AbbreviatedKey(a) > cmp.AbbreviatedKey(b) {
+					return vt.Failf(prop+"/comparer-abbreviated-key-not-monotonic", i, "%q < %q but AbbreviatedKey(enc) %#x > %#x: ordered structures that compare abbreviated keys first would invert the pair", c.Keys[i], c.Keys[j], cmp.AbbreviatedKey(a), cmp.AbbreviatedKey(b))
+				}
+				if sep := cmp.Separator(nil, a, b); cmp.Compare(a, sep) > 0 || cmp.Compare(sep, b) >= 0 {
+					return vt.Failf(prop+"/comparer-separator", i, "Separator(enc %q, enc %q) is not in [a, b)", c.Keys[i], c.Keys[j])
+				}
+				// prefixes (as defined by Split) must not order against the keys
+				if pa, pb := a[:cmp.Split(a)], b[:cmp.Split(b)]; cmp.Compare(pa, pb) > 0 {
+					return vt.Failf(prop+"/comparer-split", i, "%q < %q but their Split prefixes order the other way", c.Keys[i], c.Keys[j])
+				}
 			}
 		}
 	}
